@@ -352,13 +352,21 @@ def mark_tails(steps):
     for k, i in enumerate(polls):
         nxt = next((j for j in polls[k + 1:] if steps[j].get("f") == steps[i].get("f")), None)
         if nxt is not None and steps[nxt].get("fin"):
-            out[i] = dict(steps[i], tail=True)
+            out[i] = dict(out[i], tail=True)
+        if nxt is not None:
+            # the name of the next poll's local span: enter_on_poll adapters are built ahead of their poll
+            out[i] = dict(out[i], gnext=steps[nxt].get("g"))
+    for i, st in enumerate(steps):
+        if st.get("ev") == "call" and st.get("op") == "fnew":
+            first = next((j for j in polls if j > i and steps[j].get("f") == st.get("f")), None)
+            if first is not None:
+                out[i] = dict(out[i], gnext=steps[first].get("g"))
     return out
 
 
 def replay(behaviours, c, tag, seed):
     """Runs the behaviours through the harness (restarting it after a hang). Returns (trace path, stats)."""
-    if any(st.get("op") == "fpoll" for b in behaviours[:50] for st in b["steps"]):
+    if any(st.get("op") == "fpoll" for b in behaviours for st in b["steps"]):
         behaviours = [dict(b, steps=mark_tails(b["steps"])) for b in behaviours]
     d = os.path.join(OUT, "replay", tag)
     shutil.rmtree(d, ignore_errors=True)
